@@ -20,7 +20,7 @@ func init() { props["C08"] = &Prop{Gen: genC08, Exec: execC08} }
 
 // ownerOf maps an op to the property whose Exec implements it (C08 sweeps the other properties' parsers)
 var c08Owner = map[string]string{
-	"dec": "C01", "cdec": "C01", "ccdec": "C01", "cb": "C01",
+	"dec": "C01", "cdec": "C01", "ccdec": "C01", "cb": "C01", "addr": "C01",
 	"wifdec": "C06", "xkey": "C05",
 	"b58dec": "C07", "chkdec": "C07", "bechdec": "C07", "bcb": "C07",
 	"hist": "C09", "histobj": "C09", "txm": "C09", "blk": "C09", "ex": "C09", "exlim": "C09",
@@ -147,6 +147,14 @@ func genC08(r *Rng, tier string, emit func(Case)) {
 	e("json", "hetero-array2", hs(`{"block":{"info":{"hash":["00",{"x":null},[1]]}}}`))
 	e("scantime", "chain", "12", "22")
 	e("gcsraw", "hugeN", strings.Repeat("00", 16), "19", "784931", "-", "feffffffff00", "00;seq:3:1")
+	// ---- the address constructors take externally supplied hashes, scripts and serialized keys (a key pushed by a
+	// script): every kind with degenerate payload lengths, on two nets
+	for _, kind := range []string{"pkh", "sh", "sh32", "slppkh", "slpsh", "slpsh32", "lpkh", "lsh", "pk", "shs", "sh32s", "lshs"} {
+		for _, l := range []int{0, 1, 19, 20, 21, 31, 32, 33, 34, 64, 65, 66} {
+			e("addr", "ctorlens", kind, itoa(l%2), hx(r.Bytes(l)))
+		}
+		e("addr", "ctorlens", kind, "0", "-")
+	}
 	// ---- sweep of the other properties' near-valid / malformed streams
 	sub := func(id string, keep map[string]bool, rename map[string]string) {
 		props[id].Gen(NewRng(r.U64(), id), "quick", func(c Case) {
